@@ -276,7 +276,7 @@ fn bytes_case(ctx: &mut Ctx, idx: usize) {
     let edge: [u8; 9] = [0x00, 0x09, 0x0a, 0x0b, 0x0c, 0x0d, 0x20, 0x7f, 0xff];
     // lengths around the widths the library hashes itself, around the SHA3-256 rate (136 bytes) and its multiples,
     // around 1088 (the rate in bits), powers of two, and a few kilobytes
-    let n = [0usize, 1, 2, 31, 32, 33, 47, 48, 64, 95, 96, 97, 135, 136, 137, 271, 272, 273, 1023, 1024, 1087, 1088, 1089, 2048, 4096, 5000][ctx.prng.gen_range(0..26)];
+    let n = [0usize, 1, 2, 31, 32, 33, 47, 48, 64, 95, 96, 97, 135, 136, 137, 271, 272, 273, 1023, 1024, 1087, 1088, 1089, 2048, 4096, 5000, 8191, 8192, 8193, 16384, 65537][ctx.prng.gen_range(0..31)];
     let mut data: Vec<u8> = (0..n).map(|_| ctx.prng.gen()).collect();
     // edge values at the ends (and sometimes everywhere)
     for i in 0..n {
@@ -302,7 +302,16 @@ fn bytes_case(ctx: &mut Ctx, idx: usize) {
     } else {
         ctx.count("raw-bytes:match");
     }
-    for i in 0..n {
+    // every position; for the longest contexts the two ends, the neighbourhood of every 4096-byte boundary and a random sample
+    let positions: Vec<usize> = if n <= 5000 { (0..n).collect() } else {
+        let mut v: Vec<usize> = (0..16).chain(n - 16..n).collect();
+        let mut b = 4096;
+        while b < n { for d in [b - 1, b, b + 1] { if d < n { v.push(d); } } b += 4096; }
+        for _ in 0..64 { v.push(ctx.prng.gen_range(0..n)); }
+        v.sort(); v.dedup();
+        v
+    };
+    for i in positions {
         for &v in edge.iter() {
             if v == data[i] { continue; }
             let mut d2 = data.clone();
@@ -385,7 +394,17 @@ fn establish_case(ctx: &mut Ctx, idx: usize, w: &World, w2: &World) {
     a2.cid_s = other.cid_s;
     check(ctx, w, &a2, &run.d, "agreed-channel-id", true);
     // every byte position of the context
-    for i in 0..a.ctx_bytes.len() {
+    // (long contexts: both ends, around every 4096-byte boundary, and a random sample)
+    let n = a.ctx_bytes.len();
+    let positions: Vec<usize> = if n <= 200 { (0..n).collect() } else {
+        let mut v: Vec<usize> = (0..8).chain(n - 8..n).collect();
+        let mut b = 4096;
+        while b < n { for d in [b - 1, b] { v.push(d); } b += 4096; }
+        for _ in 0..16 { v.push(ctx.prng.gen_range(0..n)); }
+        v.sort(); v.dedup();
+        v
+    };
+    for i in positions {
         let mut a2 = a.clone();
         a2.ctx_bytes[i] ^= 1 << ctx.prng.gen_range(0..8);
         check(ctx, w, &a2, &run.d, "context-byte", true);
